@@ -845,7 +845,9 @@ def _pack_asn1_utf8_string(
 def _encode_object_identifier(oid: str) -> bytes:
     """Encode an object identifier."""
     cmps = list(map(int, oid.split(".")))
-    if cmps[0] > 39 or cmps[1] > 39:
+    # X.690 8.19.4: the first arc is 0, 1 or 2 and the second arc is limited
+    # to 39 only when the first arc is 0 or 1.
+    if len(cmps) < 2 or cmps[0] > 2 or (cmps[0] < 2 and cmps[1] > 39) or any(c < 0 for c in cmps):
         raise ValueError("Illegal object identifier")
     cmps = [40 * cmps[0] + cmps[1]] + cmps[2:]
     cmps.reverse()
@@ -1013,11 +1015,15 @@ def _read_asn1_object_identifier(
         hint=hint,
     )
 
-    first_element = struct.unpack("B", raw_oid[:1])[0]
-    second_element = first_element % 40
-    ids = [(first_element - second_element) // 40, second_element]
+    if not raw_oid:
+        raise ValueError("Expected at least one octet for an ASN.1 OBJECT IDENTIFIER value but got none")
 
-    idx = 1
+    # X.690 8.19.4: the first subidentifier (which can span multiple octets)
+    # encodes the first two arcs as (X * 40) + Y with X being 0, 1 or 2.
+    first_element, idx = _unpack_asn1_octet_number(raw_oid)
+    first_arc = min(first_element // 40, 2)
+    ids = [first_arc, first_element - (first_arc * 40)]
+
     while idx != len(raw_oid):
         oid, octet_len = _unpack_asn1_octet_number(raw_oid[idx:])
         ids.append(oid)
